@@ -14,8 +14,20 @@ None == <<>>
 Some(x) == <<x>>
 
 (* ---------------- pools ---------------- *)
-Methods == <<"GET", "POST", "PUT", "HEAD", "OPTIONS", "DELETE">>
+\* every method libhtp knows (htp_core.h enum htp_method_t) and one it does not; POST / PUT recur so that request bodies stay frequent
+Methods == <<"GET", "POST", "PUT", "HEAD", "OPTIONS", "DELETE", "TRACE", "POST", "PATCH", "PROPFIND", "PUT", "PROPPATCH", "MKCOL", "POST", "COPY", "MOVE",
+             "PUT", "LOCK", "UNLOCK", "POST", "VERSION-CONTROL", "CHECKOUT", "PUT", "UNCHECKOUT", "CHECKIN", "POST", "UPDATE", "LABEL", "PUT", "REPORT",
+             "MKWORKSPACE", "MKACTIVITY", "BASELINE-CONTROL", "MERGE", "BREW">>
 HasReqBody(m) == m \in {"POST", "PUT"}
+MethodNumber(m) ==
+  CASE m = "HEAD" -> 1 [] m = "GET" -> 2 [] m = "PUT" -> 3 [] m = "POST" -> 4 [] m = "DELETE" -> 5 [] m = "CONNECT" -> 6 [] m = "OPTIONS" -> 7 [] m = "TRACE" -> 8
+    [] m = "PATCH" -> 9 [] m = "PROPFIND" -> 10 [] m = "PROPPATCH" -> 11 [] m = "MKCOL" -> 12 [] m = "COPY" -> 13 [] m = "MOVE" -> 14 [] m = "LOCK" -> 15
+    [] m = "UNLOCK" -> 16 [] m = "VERSION-CONTROL" -> 17 [] m = "CHECKOUT" -> 18 [] m = "UNCHECKOUT" -> 19 [] m = "CHECKIN" -> 20 [] m = "UPDATE" -> 21
+    [] m = "LABEL" -> 22 [] m = "REPORT" -> 23 [] m = "MKWORKSPACE" -> 24 [] m = "MKACTIVITY" -> 25 [] m = "BASELINE-CONTROL" -> 26 [] m = "MERGE" -> 27
+    [] OTHER -> 0
+ProtocolNumber(v) == IF v = "HTTP/1.1" THEN 101 ELSE IF v = "HTTP/1.0" THEN 100 ELSE -1
+\* enum htp_transfer_coding_t: 1 no body, 2 identity, 3 chunked
+CodingOf(fr) == IF fr \in {"chunked1", "chunked2"} THEN 3 ELSE IF fr \in {"cl", "close", "cl0"} THEN 2 ELSE 1
 \* targets: raw text and what the parser should report for it (raw components; normalised path; query parameters)
 T(raw, scheme, user, pass, host, port, portn, path, npath, query, frag, params) ==
   [raw |-> raw, scheme |-> scheme, user |-> user, pass |-> pass, host |-> host, port |-> port, portn |-> portn,
@@ -137,7 +149,8 @@ ReqWireLines(q) == <<L("host", "Host", ": ", <<q.hostv>>, " ")>> \o q.lines
 ResWireLines(s) == s.lines \o CodingLines(s) \o FramingLines(s.fr, s.body, s.coding)
 ExpectedTx(p) ==
   LET q == p.req  s == p.res IN
-  [method |-> q.m, uri |-> q.t.raw, protocol |-> q.v,
+  [method |-> q.m, uri |-> q.t.raw, protocol |-> q.v, method_number |-> MethodNumber(q.m), protocol_number |-> ProtocolNumber(q.v),
+   res_protocol_number |-> ProtocolNumber(s.v), req_tc |-> CodingOf(q.fr), res_tc |-> CodingOf(s.fr),
    req_headers |-> Table(<<>>, ReqWireLines(q) \o TrailerLines(q.fr)),       \* trailer fields land in the same table
    \* the URI authority wins over the Host field (they agree in this grammar except for the port spelling)
    hostname |-> IF q.t.host # None THEN q.t.host ELSE Some(q.hosth),
